@@ -320,13 +320,16 @@ pub fn preprocess_str<T: AsRef<Path>, U: AsRef<Path>, V: BuildHasher>(
             NodeEvent::Leave(RefNode::SourceDescriptionNotDirective(x)) => {
                 let locate: Locate = x.try_into().unwrap();
                 // If the item is whitespace, last_item_line should not be updated
-                if !locate.str(s).trim().is_empty() {
-                    last_item_line = Some(locate.line);
+                let text = locate.str(s).trim_end();
+                if !text.is_empty() {
+                    // The item may span several lines: record the line it ends on.
+                    last_item_line = Some(locate.line + text.matches('\n').count() as u32);
                 }
             }
             NodeEvent::Leave(RefNode::CompilerDirective(x)) => {
                 let locate: Locate = x.try_into().unwrap();
-                last_item_line = Some(locate.line);
+                let text = locate.str(s).trim_end();
+                last_item_line = Some(locate.line + text.matches('\n').count() as u32);
             }
             _ => (),
         }
